@@ -443,7 +443,10 @@ def _judge(case, obs):
             else:
                 for e in exp_edge:
                     info['nontrivial'] = True
-                    edge_pairs.append((k, e, [de for de in d_edge if len(de[3]) == 1 and cond_ok(de[3][0], e[3])]))
+                    cands = [de for de in d_edge if len(de[3]) == 1 and cond_ok(de[3][0], e[3])]
+                    if not cands:
+                        sig.append('edge:lost-or-condition-changed')
+                    edge_pairs.append((k, e, cands))
         # ---- shown symbols ----------------------------------------------------------------------------
         if in_domain:
             exp_out = [c for c in stp if c[0] == 8 and not c[1].startswith(GENERATED)]
@@ -812,4 +815,4 @@ LEVEL_NOTE = ('Trusted: Coq kernel/vm_compute, extraction+driver (cross-checked)
               'defining rule of every auxiliary condition atom.')
 TECHNIQUE = 'Coq proofs about an executable model + differential correspondence + independent python oracle'
 DESIGN_REF = 'DESIGN.md section 5, C08'
-READY = False
+READY = True
